@@ -56,17 +56,19 @@ CHECKS = {
         'assumptions': SDB_ASSUMPTIONS,
     },
     'C02': {
-        'pkgs': ['./zzverif/hsdb', './x/evm/vm', './zzverif/hcpc'],
+        'pkgs': ['./zzverif/hsdb', './x/evm/vm', './zzverif/hcpc', './zzverif/htx'],
         'harnesses': [
             {'fn': H + 'H_C02_2_StateDBRefinement', 'must_reach': ['suicide-after-refund']},
             {'fn': C + 'H_C02_4_WarmSet'},
+            {'fn': T + 'H_C02_5_TransitionDifferential', 'over': {'max-decisions': 1500, 'max-paths': 100000}, 'must_reach': ['executed-by-both', 'vm-error-in-both', 'refused-by-both']},
+            {'fn': T + 'H_C02_5b_TransitionDifferentialAll', 'over': {'max-decisions': 1500, 'max-paths': 300000}, 'thorough_only': True, 'must_reach': ['executed-by-both', 'vm-error-in-both', 'refused-by-both']},
             {'fn': P + 'x/evm/vm.H_C02_3_AccessListDifferential', 'over': {'max-paths': 200000}},
             {'fn': P + 'x/evm/vm.H_C02_3b_AccessListDifferential4', 'over': {'max-paths': 600000}, 'thorough_only': True},
         ],
-        'level_text': 'Differential bounded symbolic execution of the glue evermint wrote around go-ethereum: (a) the real context-based StateDB against a reference model of go-ethereum\'s state-object semantics (AddBalance, SubBalance, Suicide - which zeroes the balance every time -, SetNonce, SetState, SetCode, CreateAccount with balance carry-over) over all sequences of 3 operations on one account with symbolic amounts: every vm.StateDB getter agrees after every step; (b) evermint\'s AccessList2 against go-ethereum\'s own accessList code (kept verbatim in the repository) over all sequences of 3 (thorough: 4) operations incl. copy-then-continue with a stray write to the original, 2 symbolic addresses and slots with aliasing: all return values and membership queries agree; (c) after the real TransitionDb the warm address set contains sender, destination, standard and custom precompiles and neither an unrelated account nor the zero address.',
-        'level_note': 'Partial claim: the EVM bytecode interpreter (opcode semantics, gas tables, 63/64 rule), the standard precompiles and tracing are outside; the state transition glue (intrinsic gas, refund cap, nonce handling, value check) is decided against independent oracles under C05/C06/C13 rather than against go-ethereum\'s core.StateTransition code. The reference model of (a) is a hand-written transcription of go-ethereum v1.10.26 state_object.go / statedb.go.',
-        'bounds': ['(a) 1 account (none / base, symbolic balance and nonce), 3 operations of 7 kinds, amounts < 2^100', '(b) 2 addresses x 2 slots, 3 operations (thorough 4) of 3 kinds'],
-        'outside': ['all contract bytecode (the quantifier of the property): the interpreter is not executed', 'go-ethereum\'s own TransitionDb as an oracle', 'precompiles 0x01-0x09, tracers'],
+        'level_text': 'Differential bounded symbolic execution of the glue evermint wrote around go-ethereum: (a) the real context-based StateDB against a reference model of go-ethereum\'s state-object semantics (AddBalance, SubBalance, Suicide - which zeroes the balance every time -, SetNonce, SetState, SetCode, CreateAccount with balance carry-over) over all sequences of 3 operations on one account with symbolic amounts: every vm.StateDB getter agrees after every step; (b) evermint\'s AccessList2 against go-ethereum\'s own accessList code (kept verbatim in the repository) over all sequences of 3 (thorough: 4) operations incl. copy-then-continue with a stray write to the original, 2 symbolic addresses and slots with aliasing: all return values and membership queries agree; (c) after the real TransitionDb the warm address set contains sender, destination, standard and custom precompiles and neither an unrelated account nor the zero address; (d) evermint\'s copy of the state transition (keeper.ApplyMessage -> StateTransition.TransitionDb, gas pre-paid by the ante handler) against the fork\'s own unmodified core.ApplyMessage, both driving the real EVM.Call / Create over the real StateDB with the same scripted contract behaviour from ledgers that differ exactly by the pre-payment: same consensus error class, used gas, VM error, return data, gas pool, nonces, balances, storage, logs, self-destruct marks and refund counter.',
+        'level_note': 'Partial claim: the EVM bytecode interpreter (opcode semantics, gas tables, 63/64 rule), the standard precompiles and tracing are outside; the state transition glue (intrinsic gas, refund cap, nonce handling, value check) is decided against go-ethereum\'s own core.StateTransition code in (d) and against independent oracles under C05/C06/C13; the coinbase tip (paid by go-ethereum\'s transition, by the ante handler in evermint) is left out of (d). The reference model of (a) is a hand-written transcription of go-ethereum v1.10.26 state_object.go / statedb.go.',
+        'bounds': ['(a) 1 account (none / base, symbolic balance and nonce), 3 operations of 7 kinds, amounts < 2^100', '(b) 2 addresses x 2 slots, 3 operations (thorough 4) of 3 kinds', '(d) one message: call of the scripted contract / creation (thorough: plain transfer, nonce too low / too high), legacy or dynamic fee with the quick-tier price sets, symbolic gas limit, block gas pool, value, balances; contract: 1 action of 2 kinds (thorough 4) with symbolic refund, symbolic gas use, 3 outcomes; sender balance covers gas*feeCap + value (go-ethereum\'s purchase precondition, the ante handler\'s job)'],
+        'outside': ['all contract bytecode (the quantifier of the property): the interpreter is not executed', 'precompiles 0x01-0x09, tracers'],
         'assumptions': SDB_ASSUMPTIONS,
     },
     'C03': {
